@@ -35,6 +35,19 @@ def gen_scenario(r, hostile_p=0.3, ops=None, allow_symlinks=True, for_model=Fals
                                    n_dirs=r.randrange(0, 5), lens=([0, 0] if min0 else []) + [1, 3, 100, 4096, 5000, 20000],
                                    min_len=0 if min0 else 1, decoys=r.random() < 0.5,
                                    roots=n_roots, hardlinks=True, ws_twins=0.3, prefix_roots=(n_roots >= 2 and r.random() < 0.3))
+    # one multi-root scenario in six can be materialised with its second root on another file system (a tmpfs mounted for
+    # the case, see materialise): hard links across that boundary become copies
+    two_fs = n_roots >= 2 and r.random() < 0.17
+    if two_fs:
+        second = spec["roots"][1] + "/"
+        by_p = {e["p"]: e for e in spec["entries"]}
+        for e in spec["entries"]:
+            if e["t"] == "h" and e["p"].startswith(second) != e["to"].startswith(second):
+                src = by_p[e["to"]]
+                while src["t"] == "h":
+                    src = by_p[src["to"]]
+                e.update(t="f", fam=src["fam"], len=src["len"], flip=list(src.get("flip", ())), mtime=src.get("mtime", 0) + 1)
+                del e["to"]
     if r.random() < 0.2:
         # give some files a name that is not valid UTF-8 (name patterns still apply to them, through the lossy form)
         fl = [e for e in spec["entries"] if e["t"] == "f"]
@@ -111,7 +124,7 @@ def gen_scenario(r, hostile_p=0.3, ops=None, allow_symlinks=True, for_model=Fals
         dirs_ = [e["p"] for e in spec["entries"] if e["t"] == "d" and "\n" not in e["p"]]
         if dirs_:
             cfg["isolate_rel"] = r.sample(dirs_, min(len(dirs_), r.choice([1, 1, 2])))
-    return {"spec": spec, "meta": meta, "group": g, "fmt": fmt, "op": op, "cfg": cfg, "symlinks": sym}
+    return {"spec": spec, "meta": meta, "group": g, "fmt": fmt, "op": op, "cfg": cfg, "symlinks": sym, "two_fs": two_fs}
 
 
 def _is_utf8(s):
@@ -122,10 +135,16 @@ def _is_utf8(s):
         return False
 
 
-def materialise(sc, d):
-    """Creates the tree under d/t; returns (troot, roots_abs)."""
+def materialise(sc, d, scratch=None):
+    """Creates the tree under d/t; returns (troot, roots_abs). With a Scratch, a two_fs scenario gets a fresh tmpfs mounted
+    on its second root (sc["mounted"] says whether that was possible)."""
     troot = os.path.join(d, "t")
     spec = sc["spec"]
+    sc["mounted"] = False
+    if scratch is not None and sc.get("two_fs"):
+        mp = os.path.join(troot, spec["roots"][1])
+        os.makedirs(mp)
+        sc["mounted"] = bool(scratch.mount_tmpfs([mp]))
     for e in spec["entries"]:
         if e["t"] == "l" and e["to"].startswith("@ABS@/"):
             e["to"] = troot + "/" + e["to"][6:]
